@@ -91,16 +91,28 @@ func c05Check(c *C05Case) Verdict {
 		}
 		return ok(false, "pre-done", c.Flavor)
 	}
-	// (3) actual trace must be a prefix of the reference
-	if len(tr) > len(ref) {
-		return bad("C05:extra", "cancelled run has more callbacks than the reference: %v vs %v", traceStrings(tr), traceStrings(ref))
+	// (3) projected on the callbacks the property speaks about (node starts = prep, exec attempts)
+	// the cancelled run must be a prefix of the reference run; fallback/post of the node that
+	// was running are not constrained here
+	proj := func(t []Ev) []Ev {
+		var out []Ev
+		for _, e := range t {
+			if e.Phase == "prep" || e.Phase == "exec" {
+				out = append(out, e)
+			}
+		}
+		return out
 	}
-	for i := range tr {
-		if tr[i].Leaf != ref[i].Leaf || tr[i].Visit != ref[i].Visit || tr[i].Phase != ref[i].Phase || tr[i].Attempt != ref[i].Attempt {
-			return bad("C05:diverged", "cancelled run diverges from the reference at %d: %v vs %v", i, traceStrings(tr), traceStrings(ref))
+	pa, pr := proj(tr), proj(ref)
+	if len(pa) > len(pr) {
+		return bad("C05:extra", "cancelled run started more node runs / exec attempts than the reference: %v vs %v", traceStrings(tr), traceStrings(ref))
+	}
+	for i := range pa {
+		if pa[i].Leaf != pr[i].Leaf || pa[i].Visit != pr[i].Visit || pa[i].Phase != pr[i].Phase || pa[i].Attempt != pr[i].Attempt {
+			return bad("C05:diverged", "cancelled run diverges from the reference: %v vs %v", traceStrings(tr), traceStrings(ref))
 		}
 	}
-	if len(tr) <= point {
+	if len(tr) <= point || tr[point].Phase != ref[point].Phase || tr[point].Leaf != ref[point].Leaf {
 		return bad("C05:harness", "injection point %d not reached: %v", point, traceStrings(tr))
 	}
 	// (2) after the cancellation instant: no exec attempt starts, no further node (prep) starts
@@ -109,7 +121,7 @@ func c05Check(c *C05Case) Verdict {
 			return bad("C05:started-after-cancel:"+e.Phase, "context was cancelled inside %s, yet %s was started afterwards: %v", tr[point], e, traceStrings(tr))
 		}
 	}
-	cut := len(tr) < len(ref)
+	cut := len(pa) < len(pr) || len(tr) < len(ref)
 	if cut {
 		if err == nil {
 			return bad("C05:cut-short-success", "run was cut short by cancellation inside %s (ran %d of %d callbacks) but reported success", tr[point], len(tr), len(ref))
